@@ -20,7 +20,7 @@ const ODD_SELECTORS: &[&str] = &[
     "[a=\"\\\"]", "a:not(b:not(c:not(d)))", ":not(:not(:not(:not(a))))", "a >> b", "#\\31 23", ".\\--", "é", "[é=\"日本\"]", "a /* c */ b", "@a", "a{}", "1a", "-a", "--", "a:nth-child(n of b)",
 ];
 
-const FUZZ_STRINGS: &[&str] = &["", "\0", "x", "<", ">", "a b", "é", "日本", "𝄞", "-->", "--!>", "\"", "'", "=", "/", "a\u{80}", "\u{feff}", "\r\n", "&#0;", "a>b<c", " lead", "x/y", "1", "\u{1F600}"];
+const FUZZ_STRINGS: &[&str] = &["ア", "表", "カb", "功", "", "\0", "x", "<", ">", "a b", "é", "日本", "𝄞", "-->", "--!>", "\"", "'", "=", "/", "a\u{80}", "\u{feff}", "\r\n", "&#0;", "a>b<c", " lead", "x/y", "1", "\u{1F600}"];
 
 fn fuzz_string(rng: &mut Rng) -> String {
     match rng.below(8) {
@@ -33,8 +33,37 @@ fn fuzz_string(rng: &mut Rng) -> String {
     }
 }
 
+const NTH_A: &[i64] = &[-1, 1, -2, 2, 0, 3, -3, i32::MIN as i64, i32::MAX as i64, i32::MIN as i64 + 1, i32::MAX as i64 - 1];
+const NTH_B: &[i64] = &[
+    0, 1, -1, 2, -2, 3, 5,
+    i32::MIN as i64, i32::MIN as i64 + 1, i32::MIN as i64 + 2, i32::MIN as i64 + 3, i32::MIN as i64 + 4, i32::MIN as i64 + 5,
+    i32::MAX as i64, i32::MAX as i64 - 1, i32::MAX as i64 - 2, i32::MAX as i64 - 3,
+];
+
+/// `:nth-child` / `:nth-of-type` with extreme An+B coefficients (arithmetic overflow territory).
+fn nth_extreme(rng: &mut Rng) -> String {
+    let a = rng.pick(NTH_A);
+    let b = rng.pick(NTH_B);
+    let ab = match (a, b) {
+        (0, b) => format!("{b}"),
+        (a, 0) => format!("{a}n"),
+        (a, b) if b > 0 => format!("{a}n+{b}"),
+        (a, b) => format!("{a}n{b}"),
+    };
+    let which = rng.pick(&["nth-child", "nth-of-type"]);
+    match rng.below(4) {
+        0 => format!("li:{which}({ab})"),
+        1 => format!("*:{which}({ab})"),
+        2 => format!("li:not(:{which}({ab}))"),
+        _ => format!("ul > :{which}({ab})"),
+    }
+}
+
+const SIBLING_DOC: &[u8] = b"<ul><li>1</li><li>2<li>3</li><li>4<p>x</p></li><li>5<li>6</ul><div><span>a</span><span>b</span><b>c</b><span>d</span></div>";
+
 fn fuzz_selector(rng: &mut Rng) -> String {
-    match rng.below(6) {
+    match rng.below(7) {
+        6 => nth_extreme(rng),
         0 => rng.pick(ODD_SELECTORS).to_string(),
         1 => {
             // mutate a generated selector
@@ -85,7 +114,11 @@ fn fuzz_scenario(rng: &mut Rng) -> Scenario {
         _ => wl::any_doc(rng),
     };
     let mut sc = Scenario::new(d.bytes);
-    sc.encoding = if rng.chance(1, 3) { rng.pick(wl::ENCODING_LABELS).to_string() } else { "utf-8".into() };
+    sc.encoding = match rng.below(6) {
+        0 | 1 => rng.pick(wl::ENCODING_LABELS).to_string(),
+        2 => rng.pick(&["shift_jis", "big5", "gbk", "gb18030", "euc-kr"]).to_string(),
+        _ => "utf-8".into(),
+    };
     sc.strict = rng.bool();
     sc.esi = rng.bool();
     sc.adjust_charset = rng.chance(1, 3);
@@ -305,8 +338,12 @@ impl Property for C15 {
             ex.check(c);
         }
         for _ in 0..8 {
-            let mut sc = Scenario::new(b"<div class=c1><span data-x=1>x</span></div>".to_vec());
+            let mut sc = Scenario::new(if rng.bool() { SIBLING_DOC.to_vec() } else { b"<div class=c1><span data-x=1>x</span></div>".to_vec() });
             sc.handlers = vec![HandlerSpec::Element { sel: fuzz_selector(rng), ops: vec![] }];
+            if rng.bool() {
+                let kind = rng.pick(wl::SCHED_KINDS);
+                sc.cuts = wl::schedule(rng, &sc.doc, kind);
+            }
             let mut c = Case::of(sc);
             c.mode = "selector".into();
             ex.stats.bump("c15.selector_parses");
